@@ -143,7 +143,7 @@ var c04Spec = &histSpec{Prop: "C04", Alphabet: c04Alphabet, Check: func(cfg Rout
 func init() {
 	c04Spec.register("c04/expand")
 	explore.Register(&explore.Check{ID: "C04", Run: func(rc *explore.RunCtx) {
-		depth := 3
+		depth := 4
 		if !rc.Quick() {
 			depth = 5
 		}
